@@ -524,9 +524,102 @@ def precedence(case):
     return {"nontrivial": True, "classes": ["winner:" + winner, "imports:%d" % len(case["imports"])], "key": repr(case), "sample": {"text": text, "injected": case["inject"], "accepted": expect_ok}}
 
 
+# ------------------------------------------------------------------------------ builder API
+
+
+def _builder_case(ch):
+    n = ch.int(1, 5)
+    kind = ch.pick(["slice-stop", "slice-start", "slice-negative", "step", "index", "index-negative", "two-registers", "good", "good"])
+    return {"n": n, "kind": kind, "evaluated": ch.bool(), "by_object": ch.bool(), "seed": ch.int(0, 10**6)}
+
+
+def builder_api(case):
+    """The same faults through CircuitBuilder.map / register (source given as the Register
+    object or by name, evaluated at once or lazily): an alias reaching outside its source is
+    refused by map() or at the latest by build(), never clamped or wrapped; a circuit with two
+    registers does not reach the emulator."""
+    from jaqalpaq.core.circuitbuilder import CircuitBuilder
+    from jaqalpaq.emulator import run_jaqal_circuit
+
+    n, kind, ev, by_obj = case["n"], case["kind"], case["evaluated"], case["by_object"]
+    if not (1 <= n <= 8):
+        raise Skip()
+    ch = gen.Chooser(case["seed"])
+    nat = gates.make_gates(1, idle=False, names=["U1", "X"])
+    cb = CircuitBuilder(native_gates=nat)
+    # the register is evaluated whenever the alias refers to it as an object or is evaluated itself
+    reg_eval = ev or by_obj
+    r = cb.register("r", n, unevaluated=not reg_eval)
+    src = r if (by_obj and reg_eval) else "r"
+    if ev and not by_obj:
+        src = r  # an evaluated map needs the object (a name cannot be looked up yet)
+    good = True
+    idx_form = False
+    if kind == "slice-stop":
+        sel, good = slice(0, n + ch.pick([1, 2, 10**6]), 1), False
+    elif kind == "slice-start":
+        sel, good = slice(n + ch.int(1, 2), None, 1), n + 1 > n and False
+    elif kind == "slice-negative":
+        sel, good = ch.pick([slice(-1, None), slice(-n, n), slice(0, -1), slice(-n - 1, None, 1)]), False
+    elif kind == "step":
+        sel, good = slice(0, n, ch.pick([0, -1])), False
+    elif kind == "index":
+        sel, good, idx_form = n + ch.int(0, 2), False, True
+    elif kind == "index-negative":
+        sel, good, idx_form = -ch.int(1, n + 1), False, True
+    elif kind == "two-registers":
+        sel = slice(0, n, 1)
+    else:
+        a_ = ch.int(0, n - 1)
+        sel = ch.pick([slice(a_, n), slice(a_, n, 1), slice(None, None, ch.int(1, 2)), slice(0, a_ + 1)])
+    desc = f"register r[{n}], map a {'<Register object>' if src is r and not isinstance(r, tuple) else 'r'} {sel!r}, evaluated={ev}, kind {kind}"
+
+    def make():
+        cb.map("a", src, sel, unevaluated=not ev)
+        if kind == "two-registers":
+            cb.register("s", 2, unevaluated=not reg_eval)
+            cb.gate("prepare_all")
+            cb.gate("X", ("array_item", "s", 1))
+            cb.gate("measure_all")
+        else:
+            cb.gate("prepare_all")
+            cb.gate("U1", "a" if idx_form else ("array_item", "a", 0))
+            cb.gate("measure_all")
+        return cb.build()
+
+    st_, c = guard(make, what="CircuitBuilder")
+    if kind == "two-registers":
+        if st_ == "ok":
+            np.random.seed(3)
+            st_, res = guard(run_jaqal_circuit, c, what="run_jaqal_circuit")
+            if st_ == "ok":
+                raise Violation("invalid-reference-executed", f"a circuit with two registers was executed\n{desc}", where="builder:two-registers")
+        return {"nontrivial": True, "classes": ["kind:" + kind], "key": repr(case)}
+    if not good:
+        if st_ == "ok":
+            from ..common import generate
+
+            raise Violation("invalid-reference-executed" if False else "invalid-definition-accepted", f"{desc}\nbuilt: {generate(c)}", where="builder:" + kind)
+        return {"nontrivial": True, "classes": ["kind:" + kind, "evaluated:%s" % ev, "by-object:%s" % by_obj], "key": repr(case)}
+    if st_ == "err":
+        raise Violation("valid-twin-rejected", f"{c}\n{desc}", where="builder:" + kind)
+    # the accepted alias is the one the text form declares
+    st = sel.start or 0
+    stop = n if sel.stop is None else sel.stop
+    step = sel.step or 1
+    text = f"register r[{n}]\nmap a r[{st}:{stop}:{step}]\nprepare_all\nU1 a[0]\nmeasure_all\n"
+    ct = parse(text, inject_pulses=nat)
+    if not (c == ct) or not (ct == c):
+        from ..common import generate
+
+        raise Violation("twin-meaning", f"{desc}\nbuilder: {generate(c)}\ntext: {text}", where="builder:" + kind)
+    return {"nontrivial": False, "classes": ["kind:" + kind, "evaluated:%s" % ev, "by-object:%s" % by_obj], "key": repr(case)}
+
+
 def parts():
     return [
         Part("references", gen.cases(_ref_case), references, quick=5000, thorough=120000, min_nontrivial=0.3),
         Part("definitions", gen.cases(_def_case), definitions, quick=2000, thorough=40000, min_nontrivial=0.1),
         Part("precedence", None, precedence, quick=0, thorough=0, exhaustive=_prec_enum, shards=4),
+        Part("builder-api", gen.cases(_builder_case), builder_api, quick=600, thorough=8000, min_nontrivial=0.3),
     ]
